@@ -749,3 +749,32 @@ func SecurityMatrix() *m.Design {
 		Services: []*m.Service{{Name: "secmatrix", HasHTTP: true, Security: []m.Requirement{jwtRead}, Methods: []*m.Method{store, fetch, rename, both, login, inherited, open}}},
 		Features: []string{"fixed-design:security-matrix", "implicit-authorization", "explicit-body-without-credential", "lower-case-authorization-header", "alternative-requirements", "two-schemes-one-requirement", "inherited-security", "no-security"}}
 }
+
+// RecursiveMatrix is a fixed HTTP design about types that reach themselves:
+// through an attribute, an array element, a map element, an array of maps,
+// through a second type (mutual recursion), and a recursive result type, as
+// request and response bodies. (Recursion through a map key or together with a
+// union, and any recursion over gRPC, are open findings with probes of their
+// own.)
+func RecursiveMatrix() *m.Design {
+	obj := func(fs ...*m.Field) *m.Attr { return &m.Attr{Type: &m.Type{Kind: m.Object, Fields: fs}} }
+	fld := func(n string, a *m.Attr, req bool) *m.Field { return &m.Field{Name: n, Attr: a, Required: req} }
+	str := func() *m.Attr { return m.Prim(m.String) }
+	arr := func(e *m.Attr) *m.Attr { return &m.Attr{Type: &m.Type{Kind: m.Array, Elem: e}} }
+	mp := func(v *m.Attr) *m.Attr { return &m.Attr{Type: &m.Type{Kind: m.Map, Key: m.Prim(m.String), Val: v}} }
+	tree := &m.UserType{Name: "Tree", Var: "rtree", Attr: obj(fld("name", str(), true), fld("parent", m.UserRef("Tree"), false), fld("kids", arr(m.UserRef("Tree")), false),
+		fld("by_name", mp(m.UserRef("Tree")), false), fld("groups", arr(mp(m.UserRef("Tree"))), false))}
+	a := &m.UserType{Name: "Alpha", Var: "ralpha", Attr: obj(fld("label", str(), false), fld("beta", m.UserRef("Beta"), false))}
+	b := &m.UserType{Name: "Beta", Var: "rbeta", Attr: obj(fld("alphas", arr(m.UserRef("Alpha")), false), fld("index", mp(m.UserRef("Alpha")), false))}
+	node := &m.UserType{Name: "Node", Var: "rnode", Result: true, Identifier: "application/vnd.rec.node",
+		Attr:  obj(fld("name", str(), true), fld("kids", arr(m.UserRef("Node")), false)),
+		Views: []*m.View{{Name: "default", Fields: []m.ViewField{{Name: "name"}, {Name: "kids"}}}}}
+	put := &m.Method{Name: "put", Payload: m.UserRef("Tree"), Result: m.UserRef("Tree"), HTTP: &m.HTTPEndpoint{Routes: []m.Route{{Verb: "POST", Path: "/rec/tree"}}}}
+	mutual := &m.Method{Name: "mutual", Payload: m.UserRef("Alpha"), Result: m.UserRef("Beta"), HTTP: &m.HTTPEndpoint{Routes: []m.Route{{Verb: "POST", Path: "/rec/mutual"}}}}
+	get := &m.Method{Name: "get", Payload: obj(fld("id", str(), true)), Result: m.UserRef("Node"),
+		HTTP: &m.HTTPEndpoint{Routes: []m.Route{{Verb: "GET", Path: "/rec/node/{id}"}}, Path: []m.Mapping{{Attr: "id"}}}}
+	return &m.Design{API: m.API{Name: "recmatrix", Title: "Recursive types matrix"},
+		Types:    []*m.UserType{node, tree, a, b},
+		Services: []*m.Service{{Name: "recmatrix", HasHTTP: true, Methods: []*m.Method{put, mutual, get}}},
+		Features: []string{"fixed-design:recursive-matrix", "recursive-through-array", "recursive-through-map-element", "mutually-recursive-types", "recursive-result-type"}}
+}
